@@ -43,7 +43,7 @@ def correspondence(ctx):
                              input=dict(case=c["line"], go=c["go"], model=c.get("model"))))
     # unknown tagged fields: frames carrying two tagged fields the library does not know in every
     # tag buffer (and in the response header) must decode to the very same value
-    ut = [c for c in S.last_cases if c["op"] == "dec" and c["feats"] == "unknown-tags"]
+    ut = [c for c in S.last_cases if c["op"] in ("dec", "decnd") and ("unknown-tags" in c["feats"] or "plain-reader" in c["feats"])]
     if ut:
         ures, _ = S.run_dec_child(ut)
         umod = L.run_model(model, "\n".join(c["line"] for c in ut) + "\n")
@@ -95,6 +95,24 @@ def correspondence(ctx):
 
 
 def search(ctx, violations):
+    """An obligation broke (typically Gen.schemas <> Golden.golden_schemas after an edit of a struct
+    tag): look for a value whose frame, as the real encoder writes it, is not the canonical frame of
+    the pinned schema; then for any real-vs-model disagreement on more values."""
+    try:
+        model = L.ocaml_build("c04")
+        cases = [c for c in S.gen_cases(ctx, 4, 1, 1) if c["op"] == "enc"]
+        g = [dict(c, line=c["line"].replace(" enc ", " encg ", 1)) for c in cases]
+        res = L.run_model(model, "\n".join(c["line"] for c in g) + "\n")
+        for c in g:
+            r = res.get(c["id"], "")
+            real = c["go"].split(" ")[0]
+            if r in ("same", "", "no-golden-schema"):
+                continue
+            if r != real:
+                return dict(case=c["line"], go=c["go"], canonical_frame_of_pinned_schema=r,
+                            what="the frame the real encoder writes is not the canonical encoding of the pinned (Golden) schema for this api/version")
+    except L.Fail:
+        pass
     ctx.seed += 1000
     ctx.thorough = False
     try:
